@@ -4,7 +4,6 @@ from __future__ import annotations
 
 import datetime
 import decimal
-import functools
 import json
 from typing import TYPE_CHECKING
 from typing import Any
@@ -60,7 +59,6 @@ def default(obj: Any, default_: object = "", *, allow_false: bool = False) -> An
 
 
 @with_environment
-@functools.lru_cache(maxsize=10)
 def date(  # noqa: PLR0912 PLR0911
     dat: datetime.datetime | str | int,
     fmt: str,
